@@ -10,3 +10,4 @@ open Femio.C12
 #print axioms C12_normal_is_area_vector
 #print axioms C12_similarity_area
 #print axioms C12_similarity_sign
+#print axioms C12_affine_sign
